@@ -84,7 +84,7 @@ def schemes():
 
 
 INITS = ["random-real", "random-complex", "right-canonical", "centre-mid", "product", "mpdm", "small-norm", "large-norm",
-         "sum-after-canonicalise", "apply-after-canonicalise"]
+         "sum-after-canonicalise", "apply-after-canonicalise", "complex-regauged"]
 # the last two: histories that leave the FLAGS of a right-canonical state (to_right=True, centre at site 0) on tensors that are not
 # right-canonical any more (gauge sweep, then a sum / an operator application without re-gauging)
 FLAGGED_NOT_CANONICAL = ("sum-after-canonicalise", "apply-after-canonicalise")
@@ -180,6 +180,26 @@ def make_init(ch, sec, init, H):
     s = ch.random_mps(sec, m, "c09", cplx=(init != "random-real"))
     s.canonicalise()
     s.canonicalise()           # bond dimensions within the physical limits
+    if init == "complex-regauged":
+        # the same vector in a non-canonical gauge with COMPLEX gauge matrices on every bond: A_i -> A_i X, A_{i+1} -> X^-1 A_{i+1}
+        # (X block diagonal in the bond labels, so that the labels stay valid); direction flag and centre are left as they are
+        s.ensure_left_canonical()
+        rs = env.rng(0, ("c09-regauge", ch.family, ch.n))
+        for k in range(1, s.site_num):
+            lab = np.asarray(s.qn[k]).reshape(len(s.qn[k]), -1)
+            d = len(lab)
+            X = np.zeros((d, d), dtype=complex)
+            for i in range(d):
+                for j in range(d):
+                    if np.all(lab[i] == lab[j]):
+                        X[i, j] = rs.standard_normal() + 1j * rs.standard_normal()
+            X = X + 2.5 * np.eye(d)
+            Xi = np.linalg.inv(X)
+            a = np.asarray(s[k - 1].array)
+            b = np.asarray(s[k].array)
+            s[k - 1] = np.tensordot(a, X, axes=(-1, 0))
+            s[k] = np.tensordot(Xi, b, axes=(1, 0))
+        return s
     if init == "right-canonical":
         s.ensure_right_canonical()
     elif init in ("small-norm", "large-norm"):
